@@ -28,7 +28,9 @@ struct World::Net
 	std::map<std::string, std::unique_ptr<ip::udp::resolver>> rudp;
 	std::map<std::string, std::string> node_of;           // object -> node name
 	std::map<std::string, std::uint64_t> wr_off;          // "<socket>/<stream>" -> next offset to write
-	std::map<std::string, std::unique_ptr<ip::tcp::endpoint>> peer_ep;   // accept_ep out-params
+	// accept_ep out-params. Kept for the whole scenario: the handler of an accept that was
+	// aborted by a later accept_ep on the same acceptor still prints its endpoint
+	std::vector<std::shared_ptr<ip::tcp::endpoint>> peer_ep;
 };
 
 static std::string tep(ip::tcp::endpoint const& ep)
@@ -299,9 +301,11 @@ bool World::op_net(std::string const& ctx, toks const& op)
 			auto st = N.tcp.find(op.at(1));
 			if (st == N.tcp.end() || !st->second) { res("skipped"); return true; }
 			std::string h = op.at(2);
-			auto& pe = N.peer_ep[name];
-			pe.reset(new ip::tcp::endpoint());
-			ip::tcp::endpoint* pep = pe.get();
+			// the endpoint out-parameter must outlive both the handler (an aborted handler
+			// still prints it) and the acceptor (which may write to it late): owned by the
+			// handler and by the world
+			auto pep = std::make_shared<ip::tcp::endpoint>();
+			N.peer_ep.push_back(pep);
 			{
 				api_scope2 g(*this);
 				a.async_accept(*st->second, *pep, [this, h, pep](error_code const& e)
